@@ -123,6 +123,30 @@ def generate(problems):
                     and node.value.func.attr in ("update", "__setitem__", "setdefault", "pop", "__setattr__"):
                 writes.append((node.lineno, ast.unparse(node)))
     body += "def setTargetWrites : List String := %s\n" % lean_str_list([t for _, t in sorted(writes)])
+    # --- __init__: how the option strings of the target are redirected; strip: which actions are visited
+    init = find_method(links, "ActionLink", "__init__")
+    redirect = []
+    if init is None:
+        problems.append("LinksOrder: ActionLink.__init__ not found")
+    else:
+        def is_osa(t):
+            return isinstance(t, ast.Subscript) and isinstance(t.value, ast.Attribute) and t.value.attr == "_option_string_actions"
+
+        for node in ast.walk(init):
+            if isinstance(node, ast.For) and any(isinstance(x, ast.Assign) and any(is_osa(t) for t in x.targets) for x in node.body):
+                redirect.append((node.lineno, "for %s in %s" % (ast.unparse(node.target), ast.unparse(node.iter))))
+            if isinstance(node, ast.Assign) and any(is_osa(t) for t in node.targets):
+                redirect.append((node.lineno, ast.unparse(node)))
+    body += "def optionRedirect : List String := %s\n" % lean_str_list([t for _, t in sorted(redirect)])
+    strip = find_method(links, "ActionLink", "strip_link_target_keys")
+    filters = []
+    if strip is None:
+        problems.append("LinksOrder: ActionLink.strip_link_target_keys not found")
+    else:
+        for node in ast.walk(strip):
+            if isinstance(node, ast.For) and isinstance(node.iter, ast.ListComp) and "_actions" in ast.unparse(node.iter):
+                filters.append((node.lineno, " and ".join(ast.unparse(c) for g in node.iter.generators for c in g.ifs)))
+    body += "def stripFilter : List String := %s\n" % lean_str_list([t for _, t in sorted(filters)])
     body += "def applyGuards : List String := %s\n" % lean_str_list(guards)
     body += "def applySourceSteps : List String := %s\n" % lean_str_list(steps)
     body += "end Jap.Gen.LinksOrder\n"
